@@ -33,10 +33,13 @@ Violation keys name the mechanism, not the symptom's case: `<early|drift>:stale-
 these attributes), else `early:cycle-start` / `drift:lateness-accumulates`;
 `wait-loop:no-progress`, `escape:do:<Exception>`.
 
-All script values are multiples of 1/64 and the wall base is an integer, so the
+All script values are multiples of 1/64 s (coarse families) or of 2**-16 s (the "fine"
+families, which make waits of every size down to 15 us occur, e.g. a doer whose work
+ends 1/65536 .. 1/1024 s before the deadline) and the wall base is an integer, so the
 arithmetic of hio and of the oracle is exact and both comparisons are exact.
 Forward wall jumps are never generated (excluded by the statement).
 """
+import itertools
 import random
 
 from hio.base import doing
@@ -52,12 +55,14 @@ RULE = ("a case = (tock at construction, optional tock assigned afterwards, idle
         "per-cycle work times, per-sleep overshoots, backward wall steps during given sleeps / at given clock reads / "
         "between given cycles, stalls of the reading over given sleeps, end by limit or by the doer finishing, one or two "
         "runs of the same Doist).  Enumerated: every single-event script (one event of each kind at every position, every "
-        "size class) for 4 tocks x 6 cycles; random beyond, by family (steady, overshoot, longwork, stall, backstep-sleep, "
-        "backstep-between, backstep-read, predo, retock, rerun, mix) with 5-60 cycles.  Non-trivial = at least 3 cycle "
+        "size class) for 4 tocks x 6 cycles, and on a 2**-16 s grid the work of one cycle ending r before its deadline for "
+        "r from 15 us to a few ms at every position; random beyond, by family (steady, overshoot, longwork, stall, backstep-sleep, "
+        "backstep-between, backstep-read, predo, retock, rerun, mix, fine = 2**-16 s grid) with 5-60 cycles.  Non-trivial = at least 3 cycle "
         "starts judged, at least one of them waited for, and at least one perturbation present; distinct = by family, tock, "
         "the set of perturbation kinds and the per-cycle waited/late pattern.")
 ASSUMPTIONS = [
-    "time values are multiples of 1/64 s on an integer wall base (exact IEEE arithmetic); tock > 0",
+    "time values are multiples of 1/64 s (coarse families) or of 2**-16 s (fine families: waits down to 15 us) on an "
+    "integer wall base - exact IEEE arithmetic either way; tock > 0",
     "the wall clock never jumps forward (excluded by the statement); backward steps and stalls are permanent losses",
     "'the run started' = the moment do() is called for the never-early bound; the lossless bound is measured from the "
     "begin of cycle 0 (both are the choices that demand least)",
@@ -75,22 +80,24 @@ TIMEOUT_S = {"quick": 240, "thorough": 1800}
 BUDGET_S = {"quick": 30, "thorough": 400}
 REQUIRE = {"early_checks": 5000, "lossless_checks": 2000, "retrograde_reads_seen": 200, "stalled_sleeps": 100,
            "cycles_late_no_wait": 200, "overshot_sleeps": 500, "runs_with_tock_reassigned": 20,
-           "runs_with_backstep_before_run": 20}
+           "runs_with_backstep_before_run": 20, "submillisecond_waits": 300, "submillisecond_wait_sizes": 8}
 EXHAUSTIVE = {"quick": "all single-event scripts: tock in {1,4,16,33}/64 x 6 cycles x event kind in {overshoot, work, "
-                       "sleep-step, read-step, between-step, stall, pre-run step, tock reassigned} x every position x 5 sizes",
-              "thorough": "same single-event space with 10 cycles and 8 tocks"}
+                       "sleep-step, read-step, between-step, stall, pre-run step, tock reassigned} x every position x 5 sizes; fine grid "
+                       "(2**-16 s): work of one cycle ending r before its deadline, r in 10 sizes from 15 us to 4.6 ms, every "
+                       "position, 3 tocks",
+              "thorough": "same single-event space with 10 cycles and 8 tocks; fine grid with 20 sizes of r and 6 tocks"}
 
 U = 64.0                    # case values are integers in units of 1/64 s
 HOUR = 64 * 3600
 FAMILIES = ["steady", "overshoot", "longwork", "stall", "backstep_sleep", "backstep_between", "backstep_read",
-            "predo", "retock", "rerun", "mix"]
+            "predo", "retock", "rerun", "mix", "fine"]
 
 
 # --------------------------------------------------------------------------
 # case generation
 # --------------------------------------------------------------------------
-def blank(fam, q, n):
-    return {"fam": fam, "tock0": q, "retock": None, "idle": 0, "prestep": 0, "enter_work": 0, "n": n,
+def blank(fam, q, n, unit=64):
+    return {"fam": fam, "unit": unit, "tock0": q, "retock": None, "idle": 0, "prestep": 0, "enter_work": 0, "n": n,
             "work": [0] * n, "overs": [], "sleep_steps": {}, "read_steps": {}, "cycle_steps": {}, "stalls": {},
             "use_limit": False, "runs": 1, "between_idle": 0, "between_step": 0, "ndoers": 1}
 
@@ -123,7 +130,58 @@ def single_event_cases(tier):
         c = blank("enum-retock", None, n); c["retock"] = q; yield c
 
 
+FINE = 65536                 # fine grid: multiples of 2**-16 s (15 us); 31 + 16 bits, still exact in doubles
+MS = 0.001
+
+
+def fine_enum_cases(tier):
+    """Fixed schedule: the doer's work of one cycle ends r before that cycle's deadline, for every r from one
+    grid step (15 us) up to a few ms, at every cycle position; plus the same with the wait cut short by fine
+    overshoots / steps elsewhere.  Waits of every size class down to 15 us occur."""
+    n = 6
+    rs = [1, 2, 4, 16, 32, 64, 65, 66, 128, 300] if tier == "quick" else \
+        [1, 2, 3, 4, 8, 16, 17, 32, 33, 48, 63, 64, 65, 66, 67, 100, 128, 200, 300, 1000]
+    for q in ([1024, 640, 4096] if tier == "quick" else [1024, 640, 4096, 257, 2048, 65536]):
+        for r in rs:
+            if r >= q:
+                continue
+            for pos in range(n - 1):
+                c = blank("enum-fine-work", q, n, FINE); c["work"][pos] = q - r; yield c
+            c = blank("enum-fine-work-all", q, n, FINE); c["work"] = [q - r] * n; yield c
+            c = blank("enum-fine-work-overrun", q, n, FINE); c["work"][1] = 2 * q - r; yield c
+            c = blank("enum-fine-overshoot", q, n, FINE); c["overs"] = [0, r, 0, r]; c["work"][3] = q - r; yield c
+            c = blank("enum-fine-sleep-step", q, n, FINE); c["sleep_steps"] = {"1": r}; c["work"][3] = q - r; yield c
+
+
+def fine_rand_case(rng, tier):
+    q = rng.choice([257, 640, 1000, 1024, 2048, 4096, 16384, 65536])
+    n = rng.randint(5, 30 if tier == "quick" else 60)
+    c = blank("fine", q, n, FINE)
+    c["use_limit"] = rng.random() < 0.3
+
+    def small():
+        return rng.choice([1, 2, 3, 4, 7, 16, 31, 64, 65, 66, 100, 128, 255, 256, 1000])
+
+    c["work"] = [rng.choice([0, 0, small(), max(0, q - small()), max(0, q - small()), q + small(), max(0, 2 * q - small())])
+                 for _ in range(n)]
+    if rng.random() < 0.5:
+        c["overs"] = [rng.choice([0, 0, small(), q - 1]) for _ in range(3 * n)]
+    if rng.random() < 0.4:
+        c["sleep_steps"] = {str(i): small() for i in rng.sample(range(2 * n), 3)}
+    if rng.random() < 0.3:
+        c["cycle_steps"] = {str(i): small() for i in rng.sample(range(n), 2)}
+    if rng.random() < 0.2:
+        c["stalls"] = {str(rng.randrange(n)): rng.randint(1, 2)}
+    if rng.random() < 0.15:
+        c["enter_work"] = small()
+    if rng.random() < 0.15:
+        c["idle"] = small()
+    return c
+
+
 def rand_case(rng, fam, tier):
+    if fam == "fine":
+        return fine_rand_case(rng, tier)
     q = rng.choice([1, 2, 3, 4, 5, 8, 12, 16, 24, 32, 33, 48, 64, 96, 128])
     n = rng.randint(5, 30 if tier == "quick" else 60)
     c = blank(fam, q, n)
@@ -177,7 +235,7 @@ def rand_case(rng, fam, tier):
 
 def cases(tier, seed, shard, nshards):
     i = 0
-    for c in single_event_cases(tier):
+    for c in itertools.chain(single_event_cases(tier), fine_enum_cases(tier)):
         if i % nshards == shard:
             yield c
         i += 1
@@ -315,6 +373,9 @@ def judge(log, i0, t_do, tock, ctx, diag):
                 ctx.count("overshot_sleeps")
             if waits is not None:
                 waits.append((ev[2], ev[3]))
+                if 0 < ev[2] < MS:
+                    ctx.count("submillisecond_waits")
+                    ctx.seen("submillisecond_wait_sizes", ev[2])
                 if last_read_retro:
                     # OBSERVATION ONLY (see notes/C07.md): MonoTimer.remaining evaluates `_stop` before `.latest`
                     # shifts it, so a wait sized by a reading that reveals a backward step of b is b too long.
@@ -381,7 +442,8 @@ def judge(log, i0, t_do, tock, ctx, diag):
 # one case
 # --------------------------------------------------------------------------
 def run_case(case, ctx):
-    u = lambda x: x / U
+    unit = float(case.get("unit", U))
+    u = lambda x: x / unit
     clock = FakeClock(overshoots=[u(x) for x in case["overs"]],
                       sleep_steps={k: u(v) for k, v in case["sleep_steps"].items()},
                       read_steps={k: u(v) for k, v in case["read_steps"].items()},
